@@ -509,13 +509,26 @@ Qed.
 
 (* ------------------------------------------------------------------ whole histories *)
 
+Lemma tmpl_eqb_eq a b : tmpl_eqb a b = true <-> a = b.
+Proof.
+  unfold tmpl_eqb. apply list_eqb_spec. intros [k1 v1] [k2 v2]. simpl.
+  rewrite andb_true_iff, String.eqb_eq, cval_eqb_eq. split.
+  - intros [-> ->]. reflexivity.
+  - intro H. inversion H. auto.
+Qed.
+
 Lemma ckey_eqb_eq a b : ckey_eqb a b = true -> a = b.
 Proof.
-  destruct a as [[[[a1 a2] a3] a4] a5], b as [[[[b1 b2] b3] b4] b5]. simpl.
-  rewrite !andb_true_iff. intros [[[[H1 H2] H3] H4] H5].
-  apply String.eqb_eq in H1, H2, H3, H4. subst.
-  destruct a5 as [x|], b5 as [y|]; simpl in H5; try discriminate; [|reflexivity].
-  apply keyref_eqb_eq in H5. subst. reflexivity.
+  destruct a as [a1 a2 a3 a4 a5 a6 a7], b as [b1 b2 b3 b4 b5 b6 b7]. unfold ckey_eqb. simpl.
+  rewrite !andb_true_iff. intros [[[[[[H1 H2] H3] H4] H5] H6] H7].
+  apply String.eqb_eq in H1, H2, H3, H4. apply Z.eqb_eq in H6. subst.
+  assert (a5 = b5).
+  { destruct a5 as [x|], b5 as [y|]; simpl in H5; try discriminate; [|reflexivity].
+    apply keyref_eqb_eq in H5. subst. reflexivity. }
+  assert (a7 = b7).
+  { destruct a7 as [x|], b7 as [y|]; simpl in H7; try discriminate; [|reflexivity].
+    apply tmpl_eqb_eq in H7. subst. reflexivity. }
+  subst. reflexivity.
 Qed.
 
 Lemma cache_get_in k c t : cache_get k c = Some t -> In (k, t) c.
@@ -621,20 +634,44 @@ Proof.
   rewrite (can_sign_active a alg H). reflexivity.
 Qed.
 
+(** the claims specification depends on a configuration only through issuer, ttl and template *)
+Lemma claims_ok_ext c1 c2 sub m :
+  issuer c1 = issuer c2 -> ttl_of c1 = ttl_of c2 -> c_claims c1 = c_claims c2 ->
+  claims_ok c1 sub m = claims_ok c2 sub m.
+Proof.
+  intros Hi Ht Hc. unfold claims_ok, tmpl_of. rewrite !ttl_eq.
+  change (spec_iss c1) with (issuer c1). change (spec_iss c2) with (issuer c2).
+  rewrite Hi, Ht, Hc. reflexivity.
+Qed.
+
+Lemma with_config_spec c o :
+  with_config c o = match spec_variant c o with Some ce => Ok ce | None => Err end.
+Proof.
+  unfold with_config, spec_variant, overlay. destruct (o_unknown o); simpl; [reflexivity|].
+  destruct (o_ttl o) as [t|]; [|reflexivity].
+  rewrite (Z.leb_antisym second t). unfold second. destruct (1000000000 <? t)%Z; reflexivity.
+Qed.
+
 Section Histories.
   Variable fixed : bool.           (* is the repair of C16-F1 in place *)
-  Variable c : config.
+  Variable c : config.             (* the catalogue (prototype) configuration *)
   Variable A : list raw_entry.     (* the active entries of all accepted files of the run *)
   Hypothesis no_clash :
-    fixed = false -> reuse_allowed c = true -> forall a b, In a A -> In b A -> clash a b = false.
+    fixed = false -> c_cache c = true -> forall a b, In a A -> In b A -> clash a b = false.
+
+  (** prototype and variants share signer, cache and registry *)
+  Definition same_base (ce : config) : Prop :=
+    c_cache ce = c_cache c /\ issuer ce = issuer c /\ c_before ce = c_before c /\ c_after ce = c_after c.
 
   Definition cached_ok (seen : list token) (e : ckey * token) : Prop :=
     let '(key, t) := e in
-    reuse_allowed c = true /\ In t seen /\
-    exists sub b, key = (t_kid t, t_alg t, issuer c, sub, if fixed then Some (r_key b) else None) /\
-                  claims_ok c sub (t_claims t) = true /\
-                  In b A /\ kid_of b = t_kid t /\ spec_alg (r_key b) = Some (t_alg t) /\
-                  t_key t = Priv (r_key b) /\ t_typ t = "JWT".
+    In t seen /\
+    exists ce sub b, same_base ce /\ reuse_allowed ce = true /\
+      key = {| ck_kid := t_kid t; ck_alg := t_alg t; ck_iss := issuer ce; ck_sub := sub;
+               ck_key := if fixed then Some (r_key b) else None; ck_ttl := ttl_of ce; ck_claims := c_claims ce |} /\
+      claims_ok ce sub (t_claims t) = true /\
+      In b A /\ kid_of b = t_kid t /\ spec_alg (r_key b) = Some (t_alg t) /\
+      t_key t = Priv (r_key b) /\ t_typ t = "JWT".
 
   Record winv (cur : raw_entry * list raw_entry) (seen : list token) (w : world) : Prop := {
     wi_state : w_st w = state_of cur;
@@ -647,33 +684,52 @@ Section Histories.
   Lemma same_jti_self t n : jti_of t = Some (VJti n) -> same_jti t t = true.
   Proof. unfold same_jti. intros ->. simpl. apply Nat.eqb_refl. Qed.
 
-  Lemma exec_ok cur seen w sub now :
+  Lemma jwks_base ce w : same_base ce -> jwks ce w = jwks c w.
+  Proof. intros (_ & _ & Hb & Ha). unfold jwks. rewrite Hb, Ha. reflexivity. Qed.
+
+  Lemma cached_mono seen t e : cached_ok seen e -> cached_ok (t :: seen) e.
+  Proof.
+    destruct e as [k u]. simpl. intros (H1 & H2). split; [right; exact H1 | exact H2].
+  Qed.
+
+  (** Execute on the prototype or a variant with effective configuration [ce] *)
+  Lemma exec_ok ce cur seen w sub now :
+    same_base ce ->
     winv cur seen w ->
-    exists w' t, exec fixed c w sub now = (w', Ok t) /\
-                 token_ok c cur seen sub now t (verifies t (jwks c w')) = true /\
+    exists w' t, exec fixed ce w sub now = (w', Ok t) /\
+                 token_ok ce cur seen sub now t (verifies t (jwks c w')) = true /\
                  winv cur (t :: seen) w'.
   Proof.
-    intros [Hst Hin [alg Halg] HA Hjti Hcache]. destruct cur as [a rs]. simpl in *.
+    intros Hbase [Hst Hin [alg Halg] HA Hjti Hcache]. destruct cur as [a rs]. simpl in *.
+    assert (Hpub : spec_published (c_before ce) (c_after ce) rs = spec_published (c_before c) (c_after c) rs).
+    { destruct Hbase as (_ & _ & Hb & Ha). rewrite Hb, Ha. reflexivity. }
     unfold exec. rewrite Hst. cbn [state_of fst snd s_jwk s_key s_pub spec_jwk j_kid j_alg j_key keyref_of]. rewrite Halg.
-    set (ck := (kid_of a, alg, issuer c, sub, if fixed then Some (r_key a) else None) : ckey).
-    destruct (if c_cache c then cache_get ck (w_cache w) else None) as [t|] eqn:Hit.
+    set (ck := {| ck_kid := kid_of a; ck_alg := alg; ck_iss := issuer ce; ck_sub := sub;
+                  ck_key := if fixed then Some (r_key a) else None; ck_ttl := ttl_of ce; ck_claims := c_claims ce |}).
+    destruct (if c_cache ce then cache_get ck (w_cache w) else None) as [t|] eqn:Hit.
     - (* reuse *)
-      assert (Hg : cache_get ck (w_cache w) = Some t)
-        by (destruct (c_cache c); [exact Hit | discriminate]).
+      assert (Hcc : c_cache ce = true) by (destruct (c_cache ce); [reflexivity | discriminate]).
+      assert (Hg : cache_get ck (w_cache w) = Some t) by (rewrite Hcc in Hit; exact Hit).
       apply cache_get_in in Hg. pose proof (Hcache _ Hg) as Hc. simpl in Hc.
-      destruct Hc as (Hre & Hseen & sub' & b & Hkey & Hcl & HbA & Hbk & Hbalg & Hbkey & Htyp).
-      unfold ck in Hkey. inversion Hkey as [[K1 K2 K3 K4]]. subst sub'.
+      destruct Hc as (Hseen & ce0 & sub' & b & Hb0 & Hre0 & Hkey & Hcl0 & HbA & Hbk & Hbalg & Hbkey & Htyp).
+      unfold ck in Hkey. inversion Hkey as [[K1 K2 K3 K4 K5 K6 K7]]. subst sub'.
+      assert (Hcl : claims_ok ce sub (t_claims t) = true).
+      { rewrite (claims_ok_ext ce ce0 sub (t_claims t) K3 K6 K7). exact Hcl0. }
+      assert (Hre : reuse_allowed ce = true).
+      { unfold reuse_allowed in *. rewrite ttl_eq in *. rewrite K6.
+        destruct Hbase as (Hc1 & _). destruct Hb0 as (Hc0 & _). rewrite Hc1, <- Hc0. exact Hre0. }
       assert (Hsame : r_key b = r_key a).
-      { destruct fixed eqn:Hfx; [inversion K4; reflexivity|].
-        pose proof (no_clash eq_refl Hre a b HA HbA) as Hn. unfold clash in Hn.
+      { destruct fixed eqn:Hfx; [inversion K5; reflexivity|].
+        assert (Hcp : c_cache c = true) by (destruct Hbase as (Hc1 & _); rewrite <- Hc1; exact Hcc).
+        pose proof (no_clash eq_refl Hcp a b HA HbA) as Hn. unfold clash in Hn.
         rewrite Hbk, <- K1, String.eqb_refl, Hbalg, Halg, <- K2 in Hn. simpl in Hn. rewrite String.eqb_refl in Hn.
         simpl in Hn. apply negb_false_iff in Hn. apply keyref_eqb_eq in Hn. symmetry. exact Hn. }
       exists w, t. split; [reflexivity|].
-      assert (Hver2 : verifies t (spec_published (c_before c) (c_after c) rs) = true).
+      assert (Hver2 : verifies t (spec_published (c_before ce) (c_after ce) rs) = true).
       { apply verifies_app.
         apply verifies_active with (a := a); [exact Hin | symmetry; exact K1 | rewrite Hbkey, Hsame; reflexivity]. }
       assert (Hver : verifies t (jwks c w) = true).
-      { rewrite (jwks_spec c w (a, rs) Hst). exact Hver2. }
+      { rewrite (jwks_spec c w (a, rs) Hst). cbn [snd]. rewrite <- Hpub. exact Hver2. }
       split.
       + unfold token_ok. rewrite Hver. cbn [fst snd andb]. rewrite Hver2. cbn [andb].
         assert (Hh : header_ok a t = true).
@@ -687,23 +743,22 @@ Section Histories.
       + constructor; simpl; try assumption.
         * eexists; exact Halg.
         * intros t' [<-|Ht']; [apply Hjti; exact Hseen | apply Hjti; exact Ht'].
-        * intros [k' t'] He. pose proof (Hcache _ He) as Hc'. simpl in Hc'. simpl.
-          destruct Hc' as (H1 & H2 & H3). split; [exact H1|]. split; [right; exact H2 | exact H3].
+        * intros e He. apply cached_mono. apply Hcache. exact He.
     - (* mint *)
-      fold (custom_of c sub).
-      rewrite (sign_active c a rs alg sub now (w_minted w) Halg).
+      fold (custom_of ce sub).
+      rewrite (sign_active ce a rs alg sub now (w_minted w) Halg).
       set (t := {| t_alg := alg; t_kid := kid_of a; t_typ := "JWT"; t_key := Priv (r_key a);
-                   t_claims := fresh_claims c sub now (w_minted w) |}).
+                   t_claims := fresh_claims ce sub now (w_minted w) |}).
       eexists. exists t. split; [reflexivity|].
-      destruct (fresh_claims_ok c sub now (w_minted w)) as [Hcl Hte].
+      destruct (fresh_claims_ok ce sub now (w_minted w)) as [Hcl Hte].
       assert (Hjt : jti_of t = Some (VJti (w_minted w))).
       { unfold jti_of, t. simpl.
-        pose proof (sys_claims_get (issuer c) sub (ttl_of c) now (VJti (w_minted w)) (merge (custom_of c sub) [])) as G.
+        pose proof (sys_claims_get (issuer ce) sub (ttl_of ce) now (VJti (w_minted w)) (merge (custom_of ce sub) [])) as G.
         cbv zeta in G. apply G. }
-      assert (Hver : verifies t (spec_published (c_before c) (c_after c) rs) = true)
+      assert (Hver : verifies t (spec_published (c_before ce) (c_after ce) rs) = true)
         by (apply verifies_app; apply verifies_active with (a := a); [exact Hin | reflexivity | reflexivity]).
       split.
-      + erewrite (jwks_spec c _ (a, rs)) by reflexivity. cbn [snd].
+      + erewrite (jwks_spec c _ (a, rs)) by reflexivity. cbn [snd]. rewrite <- Hpub.
         assert (Hh : header_ok a t = true).
         { unfold header_ok, t. simpl. rewrite String.eqb_refl, Halg, String.eqb_refl. simpl. apply keyref_eqb_refl. }
         assert (He : existsb (same_jti t) seen = false).
@@ -718,14 +773,11 @@ Section Histories.
           -- exists (w_minted w). split; [exact Hjt | lia].
           -- destruct (Hjti t' Ht') as [n [Hn Hlt]]. exists n. split; [exact Hn | lia].
         * intros e He. rewrite reuse_eq in He.
-          destruct (reuse_allowed c) eqn:Hre.
-          -- destruct He as [<-|He].
-             ++ simpl. split; [first [exact Hre | reflexivity]|]. split; [left; reflexivity|].
-                exists sub, a. unfold t, ck. simpl. repeat split; try reflexivity; try assumption.
-             ++ pose proof (Hcache _ He) as Hc'. destruct e as [k' t']. simpl in *.
-                destruct Hc' as (H1 & H2 & H3). split; [exact H1|]. split; [right; exact H2 | exact H3].
-          -- pose proof (Hcache _ He) as Hc'. destruct e as [k' t']. simpl in *.
-             destruct Hc' as (H1 & _). congruence.
+          destruct (reuse_allowed ce) eqn:Hre.
+          -- destruct He as [<-|He]; [| apply cached_mono; apply Hcache; exact He].
+             simpl. split; [left; reflexivity|].
+             exists ce, sub, a. unfold t, ck. simpl. repeat split; try reflexivity; try assumption; apply Hbase.
+          -- apply cached_mono. apply Hcache. exact He.
   Qed.
 
   Lemma steps_ok ops : forall cur seen w,
@@ -734,11 +786,24 @@ Section Histories.
     obs_ok c cur seen ops (steps fixed c w ops) = true.
   Proof.
     induction ops as [|o ops IH]; intros cur seen w Hw Hincl; [reflexivity|].
-    destruct o as [sub now | f |].
-    - (* Execute *)
-      destruct (exec_ok cur seen w sub now Hw) as (w' & t & He & Hok & Hw').
-      cbn [steps step]. rewrite He. cbn [obs_ok]. rewrite Hok. simpl.
-      apply IH; [exact Hw' | exact Hincl].
+    destruct o as [ov sub now | f |].
+    - (* Execute on the prototype or a variant *)
+      cbn [steps step obs_ok]. unfold spec_target.
+      assert (Htarget : (match ov with None => Ok c | Some o => with_config c o end) =
+                        match (match ov with None => Some c | Some o => spec_variant c o end) with
+                        | Some ce => Ok ce | None => Err end).
+      { destruct ov as [o|]; [apply with_config_spec | reflexivity]. }
+      rewrite Htarget.
+      destruct (match ov with None => Some c | Some o => spec_variant c o end) as [ce|] eqn:Hce.
+      + assert (Hbase : same_base ce).
+        { destruct ov as [o|].
+          - unfold spec_variant in Hce.
+            destruct (o_unknown o || match o_ttl o with Some t => negb (1000000000 <? t)%Z | None => false end); [discriminate|].
+            inversion Hce; subst ce. unfold same_base, issuer. simpl. repeat split; reflexivity.
+          - inversion Hce; subst ce. unfold same_base. repeat split; reflexivity. }
+        destruct (exec_ok ce cur seen w sub now Hbase Hw) as (w' & t & He & Hok & Hw').
+        rewrite He. rewrite Hok. simpl. apply IH; [exact Hw' | exact Hincl].
+      + apply IH; assumption.
     - (* reload *)
       cbn [steps step]. unfold reload. cbn [files_of flat_map app accepted_of] in Hincl.
       change (flat_map (fun o => match o with OReload f0 => [f0] | _ => [] end) ops) with (files_of ops) in Hincl.
@@ -770,7 +835,7 @@ End Histories.
 
 Lemma guard_no_clash c f ops :
   guard_F1 c f ops = false ->
-  reuse_allowed c = true ->
+  c_cache c = true ->
   forall a b, In a (accepted_of (c_keyid c) (f :: files_of ops)) ->
               In b (accepted_of (c_keyid c) (f :: files_of ops)) -> clash a b = false.
 Proof.
@@ -909,7 +974,7 @@ Definition f1_entry (k : nat) : raw_entry :=
   {| r_key := {| k_id := k; k_kind := KEcdsa; k_size := 384 |}; r_xkid := "key1"; r_genkid := "generated";
      r_chain := []; r_chain_ok := true; r_usage_ok := true |}.
 Definition f1_ops : list op :=
-  [OExec "alice" 1000000000000%Z; OReload (PemOk [f1_entry 11]); OJwks; OExec "alice" 1001000000000%Z].
+  [OExec None "alice" 1000000000000%Z; OReload (PemOk [f1_entry 11]); OJwks; OExec None "alice" 1001000000000%Z].
 
 (** a token handed out after the reload is signed by the replaced key and does not
     verify against the key set published at that moment *)
@@ -935,19 +1000,88 @@ Definition nv_cfg : config :=
      c_claims := Some [("sub", VStr "admin"); ("aud", VRaw "[""a""]"); ("who", VSubj)]; c_cache := true;
      c_before := [PemOk [nv_entry 5 "other"]]; c_after := [] |}.
 Definition nv_ops : list op :=
-  [OExec "alice" 1000500000000%Z; OExec "alice" 1001000000000%Z;
-   OReload (PemOk [nv_entry 4 "new"; nv_entry 3 "old"]); OExec "alice" 1002500000000%Z; OJwks].
+  [OExec None "alice" 1000500000000%Z; OExec None "alice" 1001000000000%Z;
+   OReload (PemOk [nv_entry 4 "new"; nv_entry 3 "old"]); OExec None "alice" 1002500000000%Z;
+   OExec (Some {| o_ttl := Some 30000000000%Z; o_claims := None; o_unknown := false |}) "alice" 1003000000000%Z;
+   OExec (Some {| o_ttl := None; o_claims := Some [("scope", VStr "read")]; o_unknown := false |}) "alice" 1004000000000%Z;
+   OExec (Some {| o_ttl := None; o_claims := None; o_unknown := true |}) "alice" 1005000000000%Z;
+   OJwks].
 
 Lemma nonvacuous :
   guard_F1 nv_cfg (PemOk [nv_entry 3 "old"]) nv_ops = false /\
-  exists t1 t2,
+  exists t1 t2 t3 t4,
     snd (run true nv_cfg (PemOk [nv_entry 3 "old"]) nv_ops) =
-      [XToken t1 true; XToken t1 true; XDone; XToken t2 true;
+      [XToken t1 true; XToken t1 true; XDone; XToken t2 true; XToken t3 true; XToken t4 true; XErr;
        XJwks [spec_jwk (nv_entry 5 "other"); spec_jwk (nv_entry 4 "new"); spec_jwk (nv_entry 3 "old")]] /\
     t_kid t1 = "old" /\ t_kid t2 = "new" /\ t_alg t2 = "PS384" /\
     mget "sub" (t_claims t2) = Some (VStr "alice") /\ mget "who" (t_claims t2) = Some (VStr "alice") /\
-    mget "exp" (t_claims t2) = Some (VInt 1093%Z).
-Proof. split; [vm_compute; reflexivity|]. eexists. eexists. vm_compute. repeat split. Qed.
+    mget "exp" (t_claims t2) = Some (VInt 1093%Z) /\
+    (* variant with ttl 30s only: the catalogue's claims, exp = iat + 30 *)
+    mget "exp" (t_claims t3) = Some (VInt 1033%Z) /\ mget "who" (t_claims t3) = Some (VStr "alice") /\
+    (* variant with claims only: the catalogue's ttl (90.5 s), its own claims *)
+    mget "exp" (t_claims t4) = Some (VInt 1094%Z) /\ mget "scope" (t_claims t4) = Some (VStr "read") /\
+    mget "who" (t_claims t4) = None.
+Proof. split; [vm_compute; reflexivity|]. do 4 eexists. vm_compute. repeat split. Qed.
+
+(* ------------------------------------------------------------------ rule-level variants *)
+
+(** WithConfig accepts exactly the overrides made of ttl (> 1s) and claims, and the variant
+    is the catalogue configuration with the given members replaced *)
+Lemma variant_overlay c o ce :
+  with_config c o = Ok ce <->
+  (o_unknown o = false /\ (forall t, o_ttl o = Some t -> (second < t)%Z) /\
+   ce = {| c_keyid := c_keyid c; c_name := c_name c; c_ttl := overlay (o_ttl o) (c_ttl c);
+           c_claims := overlay (o_claims o) (c_claims c); c_cache := c_cache c;
+           c_before := c_before c; c_after := c_after c |}).
+Proof.
+  unfold with_config, overlay. destruct (o_unknown o).
+  - split; [discriminate | intros [H _]; discriminate].
+  - destruct (o_ttl o) as [t|].
+    + destruct (t <=? second)%Z eqn:E.
+      * split; [discriminate|]. intros (_ & H & _). specialize (H t eq_refl). apply Z.leb_le in E. lia.
+      * apply Z.leb_gt in E. split.
+        -- intro H. inversion H. repeat split. intros t' Ht'. inversion Ht'; subst. exact E.
+        -- intros (_ & _ & ->). reflexivity.
+    + split.
+      * intro H. inversion H. repeat split. intros t' Ht'. discriminate.
+      * intros (_ & _ & ->). reflexivity.
+Qed.
+
+(** a variant's tokens: exp is the variant's effective ttl (own, else the catalogue's, else
+    5 minutes) after iat; custom claims come from its effective template *)
+Lemma variant_token c o ce st sub now jti t :
+  with_config c o = Ok ce ->
+  sign st (issuer ce) sub (ttl_of ce) now jti (custom_of ce sub) = Ok t ->
+  let ttl := match o_ttl o with Some x => x | None => ttl_of c end in
+  let tmpl := match o_claims o with Some x => x | None => tmpl_of c end in
+  issuer ce = issuer c /\
+  exists iat exp,
+    mget "iat" (t_claims t) = Some (VInt iat) /\ mget "nbf" (t_claims t) = Some (VInt iat) /\
+    mget "exp" (t_claims t) = Some (VInt exp) /\
+    (ttl / second <= exp - iat <= (ttl + 999999999) / second)%Z /\
+    (forall s, ttl = (s * second)%Z -> (exp - iat = s)%Z) /\
+    (forall k, ~ In k reserved ->
+       mget k (t_claims t) = option_map (resolve sub) (tmpl_get k tmpl)).
+Proof.
+  intros W S. apply variant_overlay in W as (_ & _ & ->). cbv zeta.
+  assert (Ht : ttl_of {| c_keyid := c_keyid c; c_name := c_name c; c_ttl := overlay (o_ttl o) (c_ttl c);
+                         c_claims := overlay (o_claims o) (c_claims c); c_cache := c_cache c;
+                         c_before := c_before c; c_after := c_after c |}
+               = match o_ttl o with Some x => x | None => ttl_of c end).
+  { unfold ttl_of, overlay. simpl. destruct (o_ttl o); reflexivity. }
+  split; [reflexivity|].
+  destruct (exp_is_ttl_later _ _ _ _ _ _ _ _ S) as (iat & exp & H1 & H2 & H3 & H4 & H5).
+  rewrite Ht in H4, H5. exists iat, exp. repeat split; try assumption; try apply H4.
+  intros k Hk. destruct (system_claims_win _ _ _ _ _ _ _ _ S) as (_ & _ & _ & _ & _ & _ & Hc).
+  rewrite (Hc k Hk).
+  pose proof (mget_custom {| c_keyid := c_keyid c; c_name := c_name c; c_ttl := overlay (o_ttl o) (c_ttl c);
+                             c_claims := overlay (o_claims o) (c_claims c); c_cache := c_cache c;
+                             c_before := c_before c; c_after := c_after c |} sub k) as M.
+  rewrite mget_merge in M. simpl in M.
+  assert (Hm : mget k [] = None) by reflexivity.
+  destruct (tmpl_get k (custom_of _ sub)) eqn:E; rewrite M;
+    unfold tmpl_of, overlay; simpl; destruct (o_claims o); reflexivity.
+Qed.
 
 (* ------------------------------------------------------------------ no panic is reachable any more *)
 
